@@ -172,7 +172,7 @@ def run(pid, tier, args):
             v.validated(1)
         v.sample({"soup": lines[len(lines) // 2], "edit_case": lines2[len(lines2) // 2], "format": "id|abstract tokens|class"})
         v.notes["outcomes_by_class"] = {"soups": counts, "edits": counts2}
-        v.notes["family"] = "all token soups <= %d over the 18-symbol tag alphabet (whole-tag, parser:\"...\", split and struct-field forms); %d valid tags x every single-token insertion/deletion/replacement (%d cases); 41 struct shapes (incl. every documented capture target under value / pointer / slice / slice-of-pointer wrappers, and excluded fields)" % (3 if quick else 4, nvalid, len(cases))
+        v.notes["family"] = "all token soups <= %d over the 18-symbol tag alphabet (whole-tag, parser:\"...\", split and struct-field forms); %d valid tags x every single-token insertion/deletion/replacement (%d cases); 45 struct shapes (incl. four whose productions form cycles below the root, every documented capture target under value / pointer / slice / slice-of-pointer wrappers, and excluded fields)" % (3 if quick else 4, nvalid, len(cases))
         v.cov["exhaustive"] = True
         v.assumptions += ["left recursion (also a must-error cause) is decided by C08", "MustBuild is demanded for scalar string fields; @@ is exercised on a struct-typed field"]
     return v.finish()
